@@ -218,7 +218,7 @@ def oracle_builtin(case, r):
 
 # ------------------------------------------------------------------------------------ route T2: `where`
 
-L1_LOOPS = {"Skc.L1.Loops": ["loop_where", "loop_mw_changepoints"]}
+L1_LOOPS = {"Skc.L1.Loops": ["loop_where", "loop_mw_changepoints"], "Skc.L1.LoopsMwProps": ["loop_where", "loop_mw_changepoints"]}
 
 
 def gen_mwcp(rng, nmax):
